@@ -8,6 +8,6 @@ cp /tmp/mut/$ID/_mutants/m$K.md $D/author_notes.md
 python3 - "$D" "$PROP" "$NEEDS" "$RESULT" "$DEMO" <<'PY'
 import json,sys
 d,prop,needs,result,demo=sys.argv[1:6]
-json.dump({"property":prop,"origin":"independent sub-agent given only the property text and a scratch worktree","needs_to_manifest":needs,"demonstration":demo,"what_i_ran":"tools/evalseed.sh: demo in the worktree without / with the patch (passes / fails), then patch applied to /repo, checks run, patch reverted","result":result},open(d+"/meta.json","w"),indent=1)
+json.dump({"property":prop,"origin":"independent sub-agent given only the property text and a scratch worktree","needs_to_manifest":needs,"demonstration":demo,"what_i_ran":"tools/evalseed.sh: demo in the worktree without / with the patch (passes / fails), then the checks run against that worktree with the patch applied (VERIF_REPO; /repo itself is never patched)","result":result},open(d+"/meta.json","w"),indent=1)
 PY
 echo saved $D
